@@ -132,15 +132,24 @@ type prepared struct {
 
 // prepare materialises the tree and scans it the way the production sender does.
 func prepare(x xcase, dir string) (*prepared, error) {
-	p := &prepared{x: x, dir: dir, out: filepath.Join(dir, "out")}
-	if err := os.MkdirAll(p.out, 0755); err != nil {
+	out := filepath.Join(dir, "out")
+	if err := os.MkdirAll(out, 0755); err != nil {
 		return nil, err
 	}
 	root, err := x.Tree.Materialize(filepath.Join(dir, "src"))
 	if err != nil {
 		return nil, fmt.Errorf("materialize: %w", err)
 	}
-	p.root = root
+	p, err := prepareAt(x, root, out)
+	if p != nil {
+		p.dir = dir
+	}
+	return p, err
+}
+
+// prepareAt scans an already materialised tree root (whose base name is x.Tree.Base).
+func prepareAt(x xcase, root, out string) (*prepared, error) {
+	p := &prepared{x: x, out: out, root: root}
 	switch {
 	case x.Mode == "paths" && !x.Legacy:
 		m, err := manifest.ScanPaths([]string{root})
@@ -270,4 +279,16 @@ func caseDir(label string) string {
 	os.RemoveAll(d)
 	os.MkdirAll(d, 0755)
 	return d
+}
+
+// frac draws a fraction in [0,1) uniformly: rapid's numeric generators are biased towards
+// small / "simple" values, which would put almost every fault at position 0, so the drawn
+// value is passed through a bit mixer (still a pure function of the draw).
+func frac(t *rapid.T, label string) float64 {
+	v := rapid.Uint64().Draw(t, label)
+	v += 0x9E3779B97F4A7C15
+	v = (v ^ (v >> 30)) * 0xBF58476D1CE4E5B9
+	v = (v ^ (v >> 27)) * 0x94D049BB133111EB
+	v ^= v >> 31
+	return float64(v>>11) / float64(1<<53)
 }
